@@ -287,6 +287,9 @@ pub fn run(tier: &str, seed: i64) -> Outcome {
     });
     reports.push(SpaceReport { name: format!("high-mobility roots ({} positions with 60-218 moves for one side, both sides to move, colour mirrors), iterations 1..={}", mob.len(), if q { 3 } else { 4 }), states: macc.states, exhaustive: true, note: format!("[{:.1}s]", t0.elapsed().as_secs_f64()) });
     acc.merge(macc);
+    if acc.transitions == 0 {
+        acc.errors.push("no iteration value (`info ... score cp N`) was recognised in any transcript: nothing was compared".into());
+    }
     // the states counter of run_spaces counts visited roots; compare_root counts compared trees on top: keep both visible
     let mut out = Outcome::new(acc, reports, "every root of the listed spaces x every depth 1..=3 (up to 4 on roots with <= 12 moves and 5 on roots with <= 6 moves; one more in the thorough tier; 1..=2 near middlegame roots) (iteration 1 on a fresh history table, later iterations on the history left by the earlier ones): the iterative-deepening driver with every table lookup forced to miss (node hook clears the table) must print, for every iteration, the value of an exhaustive unpruned negamax over the same tree with the same leaf rule, after clamping mate-range scores; trees containing a node with king but no generated move are skipped and counted");
     out.traces_validated = out.acc.transitions;
